@@ -72,3 +72,15 @@ Print Assumptions C20_accepted_lists_are_sum_consistent.
 Example C20_example : wf_layout [(1, 7); (7, 10)] /\ clock_ok [(1, 7); (7, 10)] 1700000000 /\
   create 2 0 [(1, 7); (7, 10)] <> None.
 Proof. destruct wf_layout_example as [H1 H2]. split; [exact H1|]. split; [exact H2|]. vm_compute. discriminate. Qed.
+
+(** the bound of the random values (finding F14): a negative or oversized -max is reported as an
+    error and no file is created; with -fill a successful run had a bound in [0, 2^31), which is what
+    the value clause above needs *)
+Theorem C20_unusable_bound_is_an_error F existing fill mx m xff layout pl now :
+  gen_max_ok fill mx = false -> generate_checked F existing fill mx m xff layout pl now = (StErr, None).
+Proof. exact (generate_checked_rejects F existing fill mx m xff layout pl now). Qed.
+Print Assumptions C20_unusable_bound_is_an_error.
+Theorem C20_success_had_a_usable_bound F existing mx m xff layout pl now :
+  fst (generate_checked F existing true mx m xff layout pl now) = StOk -> 0 <= mx < 2^31.
+Proof. exact (generate_checked_ok_bound F existing mx m xff layout pl now). Qed.
+Print Assumptions C20_success_had_a_usable_bound.
